@@ -23,7 +23,7 @@ TRUSTED = [
 ]
 RULE = ("farmer kind in {none, Runner, Harvester, Sampler} x clean_up in {None, True, False} x allow_incomplete x wait "
         "x injected failure in {none, incomplete crop, unreadable result, wrong var_names, surplus results, merge "
-        "conflict, save error}; after a failure the crop directory is compared byte for byte and a corrected retry "
+        "conflict, save error} x result type in {number, bare bool, bare str} (plain and Runner crops); after a failure the crop directory is compared byte for byte and a corrected retry "
         "must deliver the exact data; distinct = distinct combinations; non-trivial = all (each has >= 2 batches)")
 
 KINDS = ["none", "Runner", "Harvester", "Sampler"]
@@ -36,6 +36,17 @@ FAILS = {  # name -> (model tag, kinds it applies to)
 
 def fn_plain(a, b):
     return 10 * a + b
+
+
+def fn_bool(a, b):
+    return (a + b) % 2 == 0
+
+
+def fn_str(a, b):
+    return f"v{a}x{b}"
+
+
+FNS = {"int": fn_plain, "bool": fn_bool, "str": fn_str}
 
 
 def fn_other(a, b):
@@ -52,14 +63,15 @@ def tree_digest(path):
 
 
 class Scenario:
-    def __init__(self, tmp, kind, rng):
+    def __init__(self, tmp, kind, rng, rtype="int"):
         import xyzpy
         self.kind, self.rng = kind, rng
+        self.fn = FNS[rtype]
         self.dir = os.path.join(tmp, "c12")
         shutil.rmtree(self.dir, ignore_errors=True)
         os.makedirs(os.path.join(self.dir, "data"))
         self.combos = {"a": [1, 2, 3], "b": [4, 5]}
-        self.runner = xyzpy.Runner(fn_plain, var_names="out")
+        self.runner = xyzpy.Runner(self.fn, var_names="out")
         self.farmer = None
         if kind == "Runner":
             self.farmer = self.runner
@@ -69,7 +81,7 @@ class Scenario:
             self.farmer = xyzpy.Sampler(self.runner, data_name=os.path.join(self.dir, "data", "s.pkl"),
                                         default_combos=self.combos)
         if self.farmer is None:
-            self.crop = xyzpy.Crop(fn=fn_plain, name="k", parent_dir=self.dir, batchsize=2)
+            self.crop = xyzpy.Crop(fn=self.fn, name="k", parent_dir=self.dir, batchsize=2)
         else:
             self.crop = self.farmer.Crop(name="k", parent_dir=self.dir, batchsize=2)
         if kind == "Sampler":
@@ -145,11 +157,11 @@ class Scenario:
         """Is what the retry delivered exactly the direct run's data?"""
         import xyzpy
         if self.kind == "none":
-            return data == xyzpy.combo_runner(fn_plain, self.combos, verbosity=0)
+            return data == xyzpy.combo_runner(self.fn, self.combos, verbosity=0)
         if self.kind == "Sampler":
             rows = sorted((int(r.a), int(r.b), int(r.out)) for r in data.itertuples())
             return len(rows) == 6 and all(o == 10 * a + b for a, b, o in rows)
-        direct = xyzpy.Runner(fn_plain, var_names="out").run_combos(self.combos, verbosity=0)
+        direct = xyzpy.Runner(self.fn, var_names="out").run_combos(self.combos, verbosity=0)
         return bool(direct.broadcast_equals(data))
 
 
@@ -173,12 +185,16 @@ def run(tier, seed):
                 for allow in (False, True):
                     for fail in [None] + [f for f, (_, ks) in FAILS.items() if kind in ks]:
                         for wait in ((False, True) if fail != "incomplete" and tier == "thorough" else (False,)):
-                            combos.append((kind, cu, allow, fail, wait))
-        for kind, cu, allow, fail, wait in combos:
-            sc = Scenario(tmp, kind, c.rng)
+                            # bare bool / str results have no NaN-like placeholder (None): the clean-up rule must
+                            # not depend on that
+                            for rtype in (("int", "bool", "str") if kind in ("none", "Runner") else ("int",)):
+                                combos.append((kind, cu, allow, fail, wait, rtype))
+        for kind, cu, allow, fail, wait, rtype in combos:
+            sc = Scenario(tmp, kind, c.rng, rtype)
             fix = sc.inject(fail)
             before = tree_digest(sc.crop.location)
-            rep = {"farmer": kind, "clean_up": cu, "allow_incomplete": allow, "wait": wait, "failure": fail}
+            rep = {"farmer": kind, "clean_up": cu, "allow_incomplete": allow, "wait": wait, "failure": fail,
+                   "result_type": rtype}
             raised, err = False, None
             try:
                 data = sc.reap(cu, allow, wait)
@@ -188,7 +204,7 @@ def run(tier, seed):
             expect_raise = fail is not None and not (fail == "incomplete" and allow)
             c.case(json.dumps(rep, sort_keys=True), nontrivial=True,
                    sample={**rep, "raised": raised, "deleted": deleted, "error": err})
-            c.count("farmer", kind); c.count("failure", str(fail)); c.count("clean_up", str(cu)); c.count("allow", allow)
+            c.count("farmer", kind); c.count("failure", str(fail)); c.count("clean_up", str(cu)); c.count("allow", allow); c.count("result_type", rtype)
             if raised:
                 if deleted or tree_digest(sc.crop.location) != before:
                     c.violation("failed-reap-changed-or-deleted-crop",
